@@ -603,7 +603,8 @@ func wrapperEncodeStates(fn *ssa.Function, hasSet, hasNull bool) string {
 				isNull := false
 				if callee != nil && callee.Signature.Recv() != nil && strings.HasSuffix(callee.Signature.Recv().Type().String(), "jx.Encoder") {
 					writes = true
-					isNull = callee.Name() == "Null"
+					// a null written inside a loop is an element of the value (empty jx.Raw item), not the wrapper's null
+					isNull = callee.Name() == "Null" && !blockInLoop(b)
 				} else if callee != nil && (callee.Name() == "Encode" || strings.HasPrefix(callee.Name(), "Encode") || callee.Name() == "encodeFields") {
 					writes = true
 				} else if call.Common().IsInvoke() && call.Common().Method.Name() == "Encode" {
@@ -628,6 +629,25 @@ func wrapperEncodeStates(fn *ssa.Function, hasSet, hasNull bool) string {
 		}
 	}
 	return ""
+}
+
+// blockInLoop: b can reach itself.
+func blockInLoop(b *ssa.BasicBlock) bool {
+	seen := map[*ssa.BasicBlock]bool{}
+	stack := append([]*ssa.BasicBlock{}, b.Succs...)
+	for len(stack) > 0 {
+		x := stack[len(stack)-1]
+		stack = stack[:len(stack)-1]
+		if x == b {
+			return true
+		}
+		if seen[x] {
+			continue
+		}
+		seen[x] = true
+		stack = append(stack, x.Succs...)
+	}
+	return false
 }
 
 // condField names the wrapper field an If condition tests: o.Set, !o.Set (UnOp NOT is folded by go/ssa into swapped
@@ -826,6 +846,12 @@ func checkStructKeys(c *core.Ctx, r *core.Rule, exp *core.Expansion, fx *core.Fi
 							k := encKeys[tn][before]
 							hasNull := false
 							ast.Inspect(blk, func(m ast.Node) bool {
+								// a null written inside a loop over the member's elements is an element (an empty
+								// jx.Raw item or map value, fix 89157ffe), not the member
+								switch m.(type) {
+								case *ast.RangeStmt, *ast.ForStmt:
+									return false
+								}
 								if ce, ok := m.(*ast.CallExpr); ok {
 									if sel, ok := ce.Fun.(*ast.SelectorExpr); ok && sel.Sel.Name == "Null" && types.ExprString(sel.X) == "e" {
 										hasNull = true
@@ -1564,6 +1590,89 @@ func checkValueFollowsKey(c *core.Ctx, r *core.Rule, exp *core.Expansion, fx *co
 					} else {
 						r.Fail(key, c.Pos(in.Pos()), fmt.Sprintf("%s: after FieldStart there is a path on which %s before any value is written (at %s): the output is `\"k\":` with nothing after it, malformed JSON for a value the type admits (e.g. an empty jx.Raw as a map value)", fn.Name(), bad, c.Pos(badPos)))
 					}
+				}
+			}
+			// (b) element loops: a loop that writes values and no keys writes one value per iteration — a path
+			// round the loop without a write leaves an element out, and the ones after it shift down.
+			for _, h := range fn.Blocks {
+				var latches []*ssa.BasicBlock
+				for _, p := range h.Preds {
+					if h.Dominates(p) {
+						latches = append(latches, p)
+					}
+				}
+				if len(latches) == 0 {
+					continue
+				}
+				// loop blocks: dominated by h and reaching a latch
+				inLoop := map[*ssa.BasicBlock]bool{h: true}
+				stack := append([]*ssa.BasicBlock{}, latches...)
+				for len(stack) > 0 {
+					x := stack[len(stack)-1]
+					stack = stack[:len(stack)-1]
+					if inLoop[x] || !h.Dominates(x) {
+						continue
+					}
+					inLoop[x] = true
+					stack = append(stack, x.Preds...)
+				}
+				writes, keys := 0, 0
+				var firstWrite token.Pos
+				for x := range inLoop {
+					for _, in := range x.Instrs {
+						switch classify(in) {
+						case "write":
+							writes++
+							if firstWrite == token.NoPos || in.Pos() < firstWrite {
+								firstWrite = in.Pos()
+							}
+						case "key":
+							keys++
+						}
+					}
+				}
+				if writes == 0 || keys > 0 {
+					continue
+				}
+				hasWrite := func(x *ssa.BasicBlock) bool {
+					for _, in := range x.Instrs {
+						if classify(in) == "write" {
+							return true
+						}
+					}
+					return false
+				}
+				skipped := false
+				seen := map[*ssa.BasicBlock]bool{}
+				var walk func(x *ssa.BasicBlock)
+				walk = func(x *ssa.BasicBlock) {
+					if skipped || hasWrite(x) {
+						return
+					}
+					for _, s := range x.Succs {
+						if !inLoop[s] {
+							continue
+						}
+						if s == h {
+							skipped = true
+							return
+						}
+						if !seen[s] {
+							seen[s] = true
+							walk(s)
+						}
+					}
+				}
+				if hasWrite(h) {
+					r.Ob(true, "")
+					continue
+				}
+				walk(h)
+				key := fmt.Sprintf("element-per-iteration:%s/%s", fx.Name, fnKey(fn))
+				if !skipped {
+					r.Ob(true, "")
+				} else {
+					r.Fail(key, c.Pos(firstWrite), fmt.Sprintf("%s: the loop that writes the elements has a path round it that writes nothing: an element the type admits (e.g. an empty jx.Raw) is left out and the later ones change position — the array read back is not the array written", fn.Name()))
 				}
 			}
 		}
